@@ -27,21 +27,23 @@ import (
 const modPath = "github.com/kercylan98/vivid"
 
 type Program struct {
-	ctxG    *IG // graph context of provenance queries (withGraph)
-	gstores map[*ssa.Global][]ssa.Instruction
-	RepoDir string
-	GOARCH  string
-	Pkgs    []*packages.Package
-	Fset    *token.FileSet
-	SSA     *ssa.Program
-	CG      *callgraph.Graph // VTA refined
-	CHA     *callgraph.Graph
-	All     map[*ssa.Function]bool // every function (incl. synthetic, instantiations)
-	Mod     []*ssa.Function        // functions whose package is inside the module, sorted by position
-	byPath  map[string]*packages.Package
-	NPkgs   int
-	NEdges  int
-	LoadS   float64
+	ctxG     *IG // graph context of provenance queries (withGraph)
+	gstores  map[*ssa.Global][]ssa.Instruction
+	edgeMemo map[[2]*ssa.BasicBlock]edgeTarget
+	vifs     map[*ssa.Function][]*vIf
+	RepoDir  string
+	GOARCH   string
+	Pkgs     []*packages.Package
+	Fset     *token.FileSet
+	SSA      *ssa.Program
+	CG       *callgraph.Graph // VTA refined
+	CHA      *callgraph.Graph
+	All      map[*ssa.Function]bool // every function (incl. synthetic, instantiations)
+	Mod      []*ssa.Function        // functions whose package is inside the module, sorted by position
+	byPath   map[string]*packages.Package
+	NPkgs    int
+	NEdges   int
+	LoadS    float64
 	// tunables varied by the thorough tier
 	InlineBound int
 	UnrollMax   int
@@ -110,6 +112,7 @@ func loadProgram(repo, goarch string) (*Program, error) {
 		p.NEdges += len(n.Out)
 	}
 	p.LoadS = time.Since(t0).Seconds()
+	theProgram = p
 	return p, nil
 }
 
